@@ -14,6 +14,7 @@ import (
 
 	secp256k1 "gitlab.com/yawning/secp256k1-voi"
 
+	"verif/lib"
 	"verif/mc"
 	"verif/ref"
 )
@@ -965,5 +966,6 @@ func main() {
 	exploreDecode(sc)
 	exploreArith(sc, pairs)
 	R.Expect("IsGreaterThanHalfN/true", "IsGreaterThanHalfN/false", "decode/non-canonical string", "steering/stored limbs verified Montgomery images")
+	lib.ReportCarryCoverage(R, true)
 	R.Finish()
 }
